@@ -37,6 +37,18 @@ def run(ctx):
         d = vlib.tlc_must_pass(ctx, "EtxRoute", "MCEtxRoute_small.cfg" if quick else "MCEtxRoute_big.cfg", workers=16, timeout=3000)
         cov.update(states=d.distinct, transitions=d.generated, tlc_depth=d.depth)
         vlib.log("TLC EtxRoute: %d distinct, %.0fs" % (d.distinct, d.wall))
+        # destination queue in isolation: every push/pop/drain/read/commit-reopen history of the bounded EtxQueue model on a real StateDB
+        q = vlib.tlc_must_pass(ctx, "MCEtxQueue", "MCEtxQueue_emit.cfg", workers=8, timeout=1200)
+        qb = ctx.work / "queue-beh.ndjson"
+        qb.write_text("\n".join(q.printed) + "\n")
+        qres = ctx.work / "queue-res.json"
+        vlib.run([drv, "queue", "-in", qb, "-out", qres], timeout=1800, check=True)
+        qj = json.loads(qres.read_text())
+        if qj["behaviours"] != len(q.printed) or qj["behaviours"] < 500:
+            raise Broken("queue replay ran %d of %d behaviours" % (qj["behaviours"], len(q.printed)))
+        for m in qj["mismatches"] or []:
+            vlib.report(ctx, {"kind": "queue-vs-spec", "op": m["op"]}, {"behaviour": m["steps"], "expected": m["expected"], "got": m["got"]})
+        cov.update(queue_behaviours_replayed=qj["behaviours"], queue_steps_compared=qj["steps"], queue_model_states=q.distinct)
         validated, events, delivered, executed, samples = 0, 0, 0, 0, []
         plans = [("rand%d" % i, 45 if quick else 140) for i in range(1 if quick else 4)]
         for i, (tag, steps) in enumerate(plans):
@@ -93,7 +105,7 @@ def run(ctx):
     vlib.write_evidence(ctx, "model_checking", cov, [
         "single subordinate chain per level (deployed topology): routing between several zones/regions is covered by the model only",
         "the minimum-inclusion rule is gas based; the trace check only demands 'queue emptied or >= 5 ETXs executed'",
-        "the StateDB queue is observed through the state opened at each block's roots, not driven in isolation",
+        "queue in isolation: pushes of 1, 2 and 300 ETXs (index growth past one byte), <= 5 operations per history",
     ])
 
 
